@@ -92,7 +92,7 @@ impl Prop for Log {
         "log"
     }
     fn cases(&self, tier: Tier) -> u64 {
-        tier.pick(600_000, 6_000_000)
+        tier.pick(600_000, 1_500_000)
     }
     fn strategy(&self, tier: Tier) -> BoxedStrategy<Case> {
         let max_steps = tier.pick(24, 40);
